@@ -162,6 +162,43 @@ func (r *ref) step(f []string, op, o string) fw.Verdict {
 		if len(f) > 1 {
 			r.indexType = f[1]
 		}
+	case "cowner":
+		// the destination becomes an owner; every owner there was stays one; sorted insert
+		var want []uint64
+		if f[1] != "-" {
+			for _, s := range strings.Split(f[1], ",") {
+				v, _ := strconv.ParseUint(s, 10, 64)
+				want = append(want, v)
+			}
+		}
+		node, _ := strconv.ParseUint(f[2], 10, 64)
+		has := false
+		for _, w := range want {
+			has = has || w == node
+		}
+		if !has {
+			k := len(want)
+			for i, w := range want {
+				if w > node {
+					k = i
+					break
+				}
+			}
+			want = append(want[:k], append([]uint64{node}, want[k:]...)...)
+		}
+		var ws []string
+		for _, w := range want {
+			ws = append(ws, fmt.Sprint(w))
+		}
+		if exp := "owners " + strings.Join(ws, ","); o != exp {
+			return fw.Verdict{OK: false, Why: fmt.Sprintf("%s answered %s, the owners must be %s", op, o, exp), Signature: "shard copy: wrong owner list in the metadata"}
+		}
+		return fw.Verdict{OK: true}
+	case "tarfault":
+		if strings.HasPrefix(o, "TARFAULT-") || strings.HasPrefix(o, "err") || strings.HasPrefix(o, "panic") {
+			return fw.Verdict{OK: false, Why: op + " => " + o, Signature: "backup stream: " + strings.Fields(o)[0]}
+		}
+		return fw.Verdict{OK: true}
 	case "cw":
 		return r.step(append([]string{"w"}, f[1:]...), op, o)
 	case "cdel":
